@@ -261,7 +261,8 @@ def run_chunks(ctx, prog):
             return "remainder is not a view of the input: %s" % sym.show(t)
         off, cnt = _norm_arith(v[2]), _norm_arith(v[3])
         if kind == "back":     # as_chunks: remainder = s[(len/N)*N ..]
-            if off == M and _norm_arith(("bin", "Sub", LEN, v[2])) == _norm_arith(v[3]) or (off == M and cnt == ("bin", "Sub", LEN, v[2])):
+            rest = sym.mk_bin("Sub", LEN, v[2])
+            if off == M and (_norm_arith(rest) == cnt or rest == v[3] or cnt == ("bin", "Sub", LEN, v[2])):
                 return None
             return "remainder is view(off=%s,n=%s), expected s[(len/N)*N..]" % (sym.show(v[2]), sym.show(v[3]))
         if off == Int(0) and cnt == REM:
@@ -285,7 +286,7 @@ def run_chunks(ctx, prog):
     # split_at(this, k) with k = (len/N)*N or len%N never takes the clamped branch: k <= len is an arithmetic fact
     cons = [le(table.Sub(LEN, LEN), LEN)]
     for key, fn in (("konst::slice::slice_as_chunks::as_chunks", chunks), ("konst::slice::slice_as_chunks::as_rchunks", rchunks)):
-        mul = ("bin", "Mul", DIV, N)
+        mul = sym.mk_bin("Mul", DIV, N)       # canonical spelling: len - len % N
         rows = [Row([eq(N, Int(0))], panics, kind="panic", name="N==0"),
                 Row([ne(N, Int(0)), le(mul, LEN), le(REM, LEN)], fn, name="N!=0")]
         _decide(ctx, "TAB-CHUNKS", prog, key, rows)
